@@ -283,10 +283,6 @@ def normalize_url(
     if fix_common_mistakes and query:
         query = fix_common_query_mistakes(query)
 
-    # Handling punycode
-    if hostname:
-        hostname = decode_punycode_hostname(hostname)
-
     # Dropping :80 & :443
     if port == 80 or port == 443:
         port = None
@@ -377,6 +373,11 @@ def normalize_url(
     # Normalizing AMP subdomains
     if normalize_amp and hostname and hostname.startswith("amp-"):
         hostname = hostname[4:]
+
+    # Handling punycode
+    # NOTE: must be done once "amp-" was dropped, since "amp-xn--" is no punycode
+    if hostname:
+        hostname = decode_punycode_hostname(hostname)
 
     # Dropping trailing slash
     if strip_trailing_slash and path.endswith("/"):
